@@ -472,6 +472,52 @@ class Subgrid:
         raise AnalysisError(f'Grid.subgrid element `{src(v)}` is not a cell of this grid')
 
 
+def masked_copy(e: ast.AST):
+    """(view grid name, visibility name) when `e` is `Grid([[<cell> if V[y, x] else Hidden() ..]
+    ..])` over every row and column of the grid named P, `<cell>` being P's cell (y, x) itself:
+    a copy of P in which exactly the cells with a false V are Hidden()"""
+    if not (isinstance(e, ast.Call) and src(e.func) == 'Grid' and len(e.args) == 1
+            and not e.keywords and isinstance(e.args[0], ast.ListComp)
+            and isinstance(e.args[0].elt, ast.ListComp)):
+        return None
+    outer, inner = e.args[0], e.args[0].elt
+    if len(outer.generators) != 1 or len(inner.generators) != 1 or \
+            outer.generators[0].ifs or inner.generators[0].ifs:
+        return None
+    go, gi_ = outer.generators[0], inner.generators[0]
+    P = yv = xv = None
+    cells = ()
+    if isinstance(go.target, ast.Tuple) and len(go.target.elts) == 2 and \
+            isinstance(gi_.target, ast.Tuple) and len(gi_.target.elts) == 2 and \
+            src(go.iter).startswith('enumerate(') and src(go.iter).endswith('.objects)') and \
+            src(gi_.iter) == f'enumerate({src(go.target.elts[1])})':
+        P = src(go.iter)[len('enumerate('):-len('.objects)')]
+        yv, xv = src(go.target.elts[0]), src(gi_.target.elts[0])
+        cells = (src(gi_.target.elts[1]),)
+    else:
+        from .cellimage import _cols_of, _rows_of2
+        gy, gx = _rows_of2(go.iter), _cols_of(gi_.iter)
+        if gy is not None and gy == gx and isinstance(go.target, ast.Name) and \
+                isinstance(gi_.target, ast.Name):
+            P, yv, xv = gy, go.target.id, gi_.target.id
+            cells = (f'{P}[{yv}, {xv}]', f'{P}[({yv}, {xv})]', f'{P}.objects[{yv}][{xv}]',
+                     f'{P}[Position({yv}, {xv})]')
+    if P is None or not P.isidentifier():
+        return None
+    el = inner.elt
+    if not isinstance(el, ast.IfExp):
+        return None
+    test, a, b = el.test, el.body, el.orelse
+    if isinstance(test, ast.UnaryOp) and isinstance(test.op, ast.Not):
+        test, a, b = test.operand, b, a
+    if not (isinstance(test, ast.Subscript) and isinstance(test.value, ast.Name)
+            and src(test.slice) in (f'({yv}, {xv})',)):
+        return None
+    if src(a) not in cells or src(b) != 'Hidden()':
+        return None
+    return P, test.value.id
+
+
 class Pipeline:
     """from_visibility as data"""
 
@@ -510,6 +556,18 @@ class Pipeline:
         d = w.sole_binding(self.grid_name)
         if d is None or d[0] != 'value':
             raise AnalysisError(f'from_visibility: `{self.grid_name}` is not assigned once')
+        # masking as a pure pass: the returned grid is a cell-by-cell copy of the view in which
+        # exactly the invisible cells are Hidden(); the view itself is then the pipeline's grid
+        self.pure_mask = None
+        pm = masked_copy(d[1])
+        if pm is not None:
+            dv = w.sole_binding(pm[0])
+            if dv is None or dv[0] != 'value':
+                raise AnalysisError(f'from_visibility: `{pm[0]}` is not assigned once')
+            self.pure_mask = (self.grid_name, pm[0], pm[1], d[1])
+            self.ret_grid = ast.copy_location(ast.Name(pm[0], ast.Load()), self.ret_grid)
+            self.grid_name = pm[0]
+            d = dv
         self.grid_def_order = d[2]
         # geometric expressions are read from the function as written when possible: helper
         # calls inside them are evaluated denotationally by GeoInterp, which is more precise
